@@ -353,6 +353,30 @@ def in_units(prog, ctx):
             with strict_ranges():
                 fouts = sxf.run()
                 frets = [o for o in fouts if o.kind == 'return']
+                if len(frets) > 1:
+                    # shortcuts that hand the input back unchanged: right only where the conversion is the identity, i.e. the
+                    # unit factor is 1 AND no rounding is requested
+                    built = [o for o in frets if isinstance(o.value, Arr) and o.value.defs]
+                    short = [o for o in frets if o not in built]
+                    same_in = lambda v_: (isinstance(v_, sp.Symbol) and v_.name in (qn, 'arr:' + qn, 'obj:' + qn)) or (isinstance(v_, Arr) and v_.name == qn and not v_.defs)
+                    if len(built) == 1 and short and all(same_in(o.value) for o in short):
+                        dsym = sxf.symbol(dn, 'double')
+                        badsc = []
+                        for o in short:
+                            ats_ = cond_atoms(o.cond)
+                            unit_one = any(isinstance(a_, sp.Equality) and {a_.lhs, a_.rhs} == {dsym, sp.Integer(1)} or
+                                           isinstance(a_, sp.Equality) and {a_.lhs, a_.rhs} == {dsym, sp.Float(1.0)} for a_ in ats_)
+                            no_round = any(a_ in (sp.Eq(rnd_f, 0), sp.Not(rnd_f), sp.Ne(rnd_f, 1)) for a_ in ats_) or \
+                                any(isinstance(a_, sp.Not) and a_.args[0] in (rnd_f, sp.Ne(rnd_f, 0)) for a_ in ([o.cond] + list(o.cond.args) if isinstance(o.cond, sp.And) else [o.cond]))
+                            if not listdim and unit_one and not no_round:
+                                badsc.append('under [%s] the input is returned as it is, also when rounding is requested' % str(o.cond)[:80])
+                            elif not (unit_one and no_round):
+                                raise Undecided('a path returns the input container under %s' % str(o.cond)[:80])
+                        if badsc:
+                            ctx.violated(R, label, f, 'the overloads disagree: ' + '; '.join(badsc) + ' (the scalar overload rounds Round(q/1, digits))',
+                                         witness={'reproducer': 'In_Units(list, 1.0 /* GeV */, true, 3) returns unrounded values'})
+                            continue
+                        frets = built
                 if len(frets) != 1 or not isinstance(frets[0].value, Arr):
                     raise Undecided('not a single path returning a container built element by element')
                 res = frets[0].value
